@@ -3007,7 +3007,7 @@ CALSCALE:GREGORIAN\n";
 	return;
 }
 
-void
+int
 echs_icalify_fini(int whither)
 {
 	static const char ftr[] = "\
@@ -3019,7 +3019,8 @@ END:VCALENDAR\n";
 	fdwrite(ftr, strlenof(ftr));
 	/* that's the last thing in line, just send it off */
 	fdflush();
-	return;
+	/* and tell them if anything went missing on the way */
+	return fderror() ? -1 : 0;
 }
 
 /* evical.c ends here */
